@@ -216,6 +216,12 @@ static size_t ZSTD_DDictHashSet_addDDict(ZSTD_DDictHashSet* hashSet, const ZSTD_
     return 0;
 }
 
+/* Memory held by the hash set itself (the referenced DDicts belong to the caller) */
+static size_t ZSTD_sizeof_DDictHashSet(const ZSTD_DDictHashSet* hashSet) {
+    if (hashSet == NULL) return 0;
+    return sizeof(*hashSet) + hashSet->ddictPtrTableSize * sizeof(ZSTD_DDict*);
+}
+
 /*-*************************************************************
 *   Context management
 ***************************************************************/
@@ -224,6 +230,7 @@ size_t ZSTD_sizeof_DCtx (const ZSTD_DCtx* dctx)
     if (dctx==NULL) return 0;   /* support sizeof NULL */
     return sizeof(*dctx)
            + ZSTD_sizeof_DDict(dctx->ddictLocal)
+           + ZSTD_sizeof_DDictHashSet(dctx->ddictSet)
            + dctx->inBuffSize + dctx->outBuffSize;
 }
 
